@@ -54,6 +54,9 @@ CLAIMED = {
  "C05": dict(technique="static analysis: dominance order (sort before chunking, merge before pagination), pairing of the sort key with the early-termination key per DocsOrder constant through the one-line order predicates, non-strictness rule for the border comparison, provenance of limits and merge arguments, error-flow of fraction errors",
              text="Layout independence rests on the fraction order, the key used to declare ids final, and the merge pipeline; these are compared structurally for both orders. The arithmetic of early termination beyond the key/strictness, paging continuity and cross-replica de-duplication are metamorphic, value-level claims and are not decided.",
              note="Trusted: go/ssa; IsDesc/IsReverse are evaluated from their one-line bodies over the declared DocsOrder constants.", ref="§3 C05"),
+ "C06": dict(technique="static analysis: enum-table agreement across three packages (names and values) and totality of the mapping tables, field-coverage of summary conversions and merges in both directions, unit-class rule for bin timestamps, order rule for the first-value test, enum coverage of aggregation switches, non-zero divisor of the time-bin modulo",
+             text="Conversions and merges of partial aggregation results are compared field by field and enum by enum: a dropped field, a renumbered function or a unit mismatch changes results for every input, but no test compares the three enum tables or both conversion directions. Numeric correctness of the aggregates themselves is not decided.",
+             note="Trusted: go/ssa, go/types; constant names compared after normalisation.", ref="§3 C06"),
 }
 
 NOT_YET = "check not built yet in this round (planned in DESIGN.md §3); nothing is claimed for it"
